@@ -510,7 +510,9 @@ class SchemaValidationContext:
     ) -> None:
         type_interfaces, iface_interfaces = type_.interfaces, iface.interfaces
         for transitive in iface_interfaces:
-            if transitive not in type_interfaces:
+            # entries that are not interface types are reported when the interfaces
+            # of iface itself are validated
+            if is_interface_type(transitive) and transitive not in type_interfaces:
                 self.report_error(
                     f"Type {type_} cannot implement {iface.name}"
                     " because it would create a circular reference."
